@@ -29,8 +29,10 @@ CHECKS = {
         'engine': 'asyncprims',
         'technique': DST + ': seeded arrival times of concurrent entrants on a virtual clock (2^-20 s grid, dyadic '
                            'window lengths, integer epoch: the limiter\'s float arithmetic is exact) against the real '
-                           'RateLimiter; sliding-window count oracle at every admission, blocked-implies-window-full '
-                           'oracle at every instant before the clock advances',
+                           'RateLimiter, bodies that raise, cancellation of entries (task.cancel) waiting or in their '
+                           'body, event-loop stalls that make sleeps overshoot (loop.stall); sliding-window count '
+                           'oracle at every admission, blocked-implies-window-full oracle at every instant before the '
+                           'clock advances',
         'design_ref': 'DESIGN.md section 6 (C24), section 5.2',
         'level_text': 'Seeded exploration of arrival patterns (simultaneous bursts, arrivals around the expiry instant, '
                       'idle windows) of up to 8 concurrent tasks entering the real rate limiter under a controlled '
@@ -38,10 +40,12 @@ CHECKS = {
                       'times; at every simulated instant a suspended entrant implies a full trailing window, so late '
                       'admission, lost wake-ups and spinning are violations. Samples schedules; not a proof.',
         'level_note': 'Trusts CPython asyncio sleep/Task semantics on the custom loop; window lengths are multiples of '
-                      '1/1024 s (float rounding for other lengths is not explored); count <= 5, <= 8 tasks x <= 6 entries.',
+                      '1/1024 s (float rounding for other lengths is not explored); count <= 5, <= 8 actors x <= 6 entries, <= 3 loop stalls of <= 2 windows per run.',
         'scenarios': [{'module': 'worlds.prims.ratelimit', 'quick': 100000, 'thorough': 2000000}],
         'expected_probes': ['limiter_blocked', 'several_blocked', 'admitted_at_exact_expiry',
-                            'later_arrival_admitted_first', 'window_full_at_admission'],
+                            'later_arrival_admitted_first', 'window_full_at_admission', 'body_raised',
+                            'cancel_blocked_in_aenter', 'cancel_in_body', 'stall_while_entrant_blocked',
+                            'sleep_overshoots'],
     },
     'C26': {
         'level': 'exploration',
